@@ -319,6 +319,29 @@ mod quaternion {
         assert!((k == 0 || e[0] == a[0]) && (k == 1 || e[1] == a[1]) && (k == 2 || e[2] == a[2]) && (k == 3 || e[3] == a[3]));
     }
     #[kani::proof]
+    fn range_indices() {
+        let a: [u32; 4] = kani::any();
+        let mut q: Quaternion<u32> = a.into();
+        let lo: usize = kani::any();
+        let hi: usize = kani::any();
+        kani::assume(lo <= hi && hi <= 4);
+        let k: usize = kani::any();
+        kani::assume(k < 4);
+        let s = &q[lo..hi];
+        assert!(s.len() == hi - lo);
+        if k >= lo && k < hi { assert!(s[k - lo] == a[k]); }
+        let s = &q[..hi];
+        if k < hi { assert!(s[k] == a[k]); }
+        let s = &q[lo..];
+        if k >= lo { assert!(s[k - lo] == a[k]); }
+        let s = &q[..];
+        assert!(s.len() == 4 && s[k] == a[k]);
+        let x: u32 = kani::any();
+        { let m = &mut q[lo..]; if k >= lo { m[k - lo] = x; } }
+        let e = [q.v.x, q.v.y, q.v.z, q.s];
+        if k >= lo { assert!(e[k] == x); }
+    }
+    #[kani::proof]
     #[kani::should_panic]
     fn index_out_of_range_panics() {
         let q: Quaternion<u32> = Quaternion::new(kani::any(), kani::any(), kani::any(), kani::any());
@@ -361,5 +384,21 @@ mod mint_conv {
         assert!(mq.s == a[3] && mq.v.x == a[0] && mq.v.y == a[1] && mq.v.z == a[2]);
         let qb: Quaternion<u32> = mq.into();
         assert!(qb.s == a[3] && qb.v.x == a[0] && qb.v.z == a[2]);
+    }
+    #[kani::proof]
+    fn matrix2_matrix4() {
+        let a: [u32; 16] = kani::any();
+        let m = Matrix2::new(a[0], a[1], a[2], a[3]);
+        let mm: mint::ColumnMatrix2<u32> = m.into();
+        assert!(mm.x.x == a[0] && mm.x.y == a[1] && mm.y.x == a[2] && mm.y.y == a[3]);
+        let back: Matrix2<u32> = mm.into();
+        assert!(back[0][0] == a[0] && back[0][1] == a[1] && back[1][0] == a[2] && back[1][1] == a[3]);
+        let m4 = Matrix4::new(a[0], a[1], a[2], a[3], a[4], a[5], a[6], a[7], a[8], a[9], a[10], a[11], a[12], a[13], a[14], a[15]);
+        let mm4: mint::ColumnMatrix4<u32> = m4.into();
+        assert!(mm4.x.x == a[0] && mm4.x.w == a[3] && mm4.y.x == a[4] && mm4.z.y == a[9] && mm4.w.x == a[12] && mm4.w.w == a[15] && mm4.y.z == a[6] && mm4.z.w == a[11]);
+        let back4: Matrix4<u32> = mm4.into();
+        let k: usize = kani::any();
+        kani::assume(k < 16);
+        assert!(back4[k / 4][k % 4] == a[k]);
     }
 }
